@@ -199,10 +199,15 @@ func (s *Signing) processEndMessage(ctx context.Context, endChn chan tssCommon.S
 			{
 				s.Log.Info().Msg("Successfully generated signature")
 
+				// whoever waited for the result may have given up already (its context is cancelled then):
+				// do not wait for it for ever
+				var result interface{}
 				if s.coordinator {
-					s.resultChn <- &sig
-				} else {
-					s.resultChn <- nil
+					result = &sig
+				}
+				select {
+				case s.resultChn <- result:
+				case <-ctx.Done():
 				}
 
 				return nil
